@@ -372,29 +372,12 @@ func (c *panicClient) dischargeSlice(e *Engine, st *State, x *ast.SliceExpr) (bo
 // default is dead when its cases cover the enclosing case list on the same tag.
 func (p *Program) explicitPanicDead(pkg *packages.Package, fd *ast.FuncDecl, call *ast.CallExpr) (bool, string) {
 	info := pkg.TypesInfo
-	if pkg == p.Parser && fd.Name.Name == "Walk" {
-		// re-derive C11/handled
-		m := p.walkModel()
-		need := map[string]bool{}
-		for _, iface := range []string{"Statement", "Expr"} {
-			for _, d := range p.Implementers(p.Iface(p.Parser, iface)) {
-				need[TypeStr(d)] = true
-			}
+	if pkg == p.Parser && p.inWalkRegion(fd) {
+		// the traversal rules (C11/handled, C11/nil, ...) decide that every node that can be popped has a case
+		if why := p.walkUnhandled(); why != "" {
+			return false, why
 		}
-		for _, cc := range m.sw.Clauses {
-			for _, e := range m.pushes(info, cc) {
-				for _, d := range p.dynTypes(info.TypeOf(e)) {
-					need[TypeStr(d)] = true
-				}
-			}
-		}
-		for n := range need {
-			if _, ok := m.caseOf[n]; !ok {
-				return false, "parser.Walk can meet a " + n + ", which has no case: the default branch panics"
-			}
-		}
-		// and optional fields are nil-guarded (a nil interface would reach the default branch too): C11/nil
-		return true, "default branch of Walk: every dynamic type that can reach the worklist has a case (C11/handled; nil children are excluded by C11/nil)"
+		return true, "panic of the traversal: every dynamic type that can reach the worklist is dispatched to a case (C11/handled; nil children are excluded by C11/nil)"
 	}
 	// inner switch default
 	var inner *ast.CaseClause
@@ -816,4 +799,39 @@ func (c *postClient) Return(e *Engine, st *State, ret *ast.ReturnStmt) {
 		}
 	}
 	c.bad = "the return at " + e.P.Pos(ret.Pos()) + " is reached on a path where the list is not known to be longer than at entry"
+}
+
+// inWalkRegion: fd is parser.Walk or a function that only Walk's code calls (a helper it was split into).
+func (p *Program) inWalkRegion(fd *ast.FuncDecl) bool {
+	walk := p.FuncDecl(p.Parser, "Walk")
+	if walk == nil {
+		return false
+	}
+	if fd == walk {
+		return true
+	}
+	for _, root := range p.regionOf(p.Parser, walk.Body) {
+		if root == ast.Node(fd.Body) {
+			return true
+		}
+	}
+	return false
+}
+
+// walkUnhandled runs the traversal rules once and returns the first failed C11/handled or C11/nil obligation ("" if
+// none).
+func (p *Program) walkUnhandled() string {
+	if p.walkChecked {
+		return p.walkWhy
+	}
+	p.walkChecked = true
+	r := NewRun("C11", "quick")
+	ruleC11Sem(p, r)
+	for _, o := range r.Obs {
+		if !o.OK && (o.Rule == "C11/handled" || o.Rule == "C11/nil") {
+			p.walkWhy = "the traversal can meet a node it has no case for: " + o.Key + ": " + o.How
+			break
+		}
+	}
+	return p.walkWhy
 }
